@@ -361,9 +361,30 @@ def load_attacks():
     return out
 
 
-def attack_replays(ck, binary, prefixes):
+FRESH_MUTANTS = [("strong-half", "fork", "Strong <- StrongHalf"), ("strong-floor", "bound3", "Strong <- StrongFloor"),
+                 ("just-nopower", "forkx", "JustOKI <- JustNoPower"), ("decide-noj", "forkx", "JustShapeOK <- JustShapeDecideNoJ")]
+
+
+def fresh_attacks(ck, seed):
+    """Thorough tier: the mutant configurations are searched again with a fresh seed (the committed library is reproducible, and a mutant that no
+    longer yields a counterexample means the design model changed: exit 2). Returns new attack scripts."""
+    out = []
+    for name, model, ov in FRESH_MUTANTS:
+        r, _ = tlc_simulate(ck, "fresh-" + name, model, 6000, 60, seed, maxround=1, rank=["RankId", "RankRev", "RankMix"][seed % 3], overrides=[ov], export=False,
+                            invariants=("AttackAgreement", "AttackValidity"), properties=(), workers=6, timeout=900)
+        att = _re_attack.findall(r.out)
+        if r.error or not att:
+            raise Inconclusive("mutant %s (%s) yields no counterexample any more: %s" % (name, ov, r.error))
+        m = MODELS[model]
+        out.append(dict(name="fresh-%s-%d" % (name, seed), mutant=ov, model=model, violates=att[0][0], powers=m["powers"], byz=m["byz"], inputs=m["inputs"],
+                        lookahead=0, steps=json.loads(_unescape(att[0][1]))))
+        ck.cov["configs"].append(dict(config="mutant:MCGPBFT[%s]" % ov, refuted_by=att[0][0], schedule_steps=len(out[-1]["steps"]), states=r.generated, wall_s=round(r.wall, 1)))
+    return out
+
+
+def attack_replays(ck, binary, prefixes, extra=()):
     """R-attack: the committed library of TLC counterexamples of mutant configurations (attacks/*.json) replayed on real participants."""
-    atts = load_attacks()
+    atts = load_attacks() + list(extra)
     if not atts:
         raise Inconclusive("attack library is empty")
     scripts = [dict(name=a["name"], powers=a["powers"], byz=a["byz"], inputs=a["inputs"], lookahead=a.get("lookahead", 0), steps=a["steps"]) for a in atts]
